@@ -149,7 +149,8 @@ CLAIMS['C23'] = {
 
 CLAIMS['C36'] = {
   'text': 'Proof of the cursor arithmetic for symbolic screen sizes, scroll windows and positions: TextScreen.set_pos/_wrap_around_and_scroll_as_needed keep the cursor on the screen and inside the scroll window, wrap at the edges as specified and scroll only at the bottom of the window when allowed and only the rows of the window; '
-          'LOCATE moves exactly to the requested cell or raises Illegal function call without moving; CSRLIN/POS report the cursor with the overflow convention; VIEW PRINT validates and sets the window. Text placement and SCREEN() contents are not covered.',
+          'LOCATE moves exactly to the requested cell or raises Illegal function call without moving; CSRLIN/POS report the cursor with the overflow convention; VIEW PRINT validates and sets the window. '
+          'Plain text placement, per character (induction over the string): TextScreen.write_char from every cursor state inside the window writes exactly one cell - the cursor cell, or column 1 of the next row from the overflow position - inside the window, scrolls the window up exactly when the text moves below its bottom row and only its rows, never pushes rows down when printing, and leaves the cursor one cell on (overflow position in the last column); Console.write hands printable text to the screen in order, unchanged, without pushing rows down. SCREEN() contents, double-byte and control characters are not covered.',
   'note': _TB + 'Page buffer and cursor sprite are recording stand-ins; set_pos precondition -width < col <= 2*width as its callers produce.',
 }
 
